@@ -96,7 +96,7 @@ CHECKS = {
 }
 
 # checks that exist, are silent on the repaired tree and reproduce the known defects on the snapshot
-CLAIMED = ["C01", "C02", "C03", "C05", "C06", "C07", "C08", "C09", "C11", "C12", "C13", "C14", "C15", "C16", "C17", "C18", "C19", "C20"]
+CLAIMED = ["C%02d" % i for i in range(1, 21)]
 
 PENDING = {  # not yet claimed at this commit (check still being built) -- shrinks as checks land
 }
